@@ -42,11 +42,20 @@ def _pairs(ctx, rng, tier):
         far.append(gen.rand_cell(rng, res=res, bc=rng.choice([0, 20, 33, 64, 100])))
     own = ctx.c([f"lij {gen.hx(o)} {gen.hx(o)} 0" for o in far], tag="own")
     ops, src = [], []
-    for o, a in zip(far, own):
+    # path lengths at and around powers of two and their multiples (block-wise / chunked loops, buffer growth), exact
+    # because the offset runs along one grid axis; then arbitrary lengths and directions
+    special = [64, 128, 256, 512, 1024, 2048, 63, 65, 127, 129, 192, 255, 257, 320, 32, 33, 16, 4096]
+    rng.shuffle(special)
+    for kk, (o, a) in enumerate(zip(far, own)):
         if not ok(a):
             continue
         i0, j0 = int(a.split()[1]), int(a.split()[2])
-        n = rng.choice([100, 300, 1000, 2000])
+        if kk < (24 if tier == "quick" else len(special) * 6):
+            n = special[kk % len(special)]
+            di, dj = rng.choice([(n, 0), (0, n), (n, n), (-n, 0), (0, -n), (-n, -n)])
+            ops.append(f"ij2cell {gen.hx(o)} {i0 + di} {j0 + dj} 0"); src.append(o)
+            continue
+        n = rng.choice([100, 300, 1000, 2000, rng.randrange(20, 700)])
         di, dj = rng.choice([(n, 0), (0, n), (n, n), (n, n // 2), (n, -n // 3), (rng.randrange(-n, n), rng.randrange(-n, n))])
         ops.append(f"ij2cell {gen.hx(o)} {i0 + di} {j0 + dj} 0"); src.append(o)
     for o, a in zip(src, ctx.c(ops, tag="far")):
